@@ -484,13 +484,18 @@ func (l *leader) setCommitIndex(index uint64) {
 	}
 	l.storage.commitLog(index)
 	verifPoint("leader.flushed", l.Raft, index)
-	if l.commitIndex < l.startIndex && index >= l.startIndex {
+	commitReady := l.commitIndex < l.startIndex && index >= l.startIndex
+	if commitReady {
 		l.logger.Info("ready for commit")
 		if tracer.commitReady != nil {
 			tracer.commitReady(l.Raft)
 		}
 	}
 	configCommitted := l.Raft.setCommitIndex(index)
+	if commitReady && !configCommitted && l.configs.IsCommitted() && !l.configs.Latest.isStable() {
+		// config actions postponed until an entry of this term is committed
+		l.checkConfigActions(nil, l.configs.Latest)
+	}
 	if configCommitted {
 		if l.configs.IsStable() {
 			if trace {
